@@ -840,6 +840,22 @@ func (s *Server) newMsgMutation(
 	return &r
 }
 
+// clientStateNames returns the list of states the client indexes its
+// mutations with: all the source's states with a synced schema, the tracked
+// ones otherwise.
+func (s *Server) clientStateNames() am.S {
+	if s.syncSchema {
+		return s.Source.StateNames()
+	}
+	s.lockCollection.Lock()
+	defer s.lockCollection.Unlock()
+	if s.tracer.trackedStates == nil {
+		return s.Source.StateNames()
+	}
+
+	return s.tracer.trackedStates
+}
+
 func (s *Server) storeLastPush(data *tracerData) {
 	s.lastPush = time.Now()
 	s.lastPushData = data
@@ -985,11 +1001,11 @@ func (s *Server) RemoteAdd(
 	var val am.Result
 	if req.Event != nil {
 		val = s.Source.EvAdd(req.Event, amhelp.IndexesToStates(
-			s.Source.StateNames(), req.States,
+			s.clientStateNames(), req.States,
 		), args)
 	} else {
 		// TODO eval
-		val = s.Source.Add(amhelp.IndexesToStates(s.Source.StateNames(),
+		val = s.Source.Add(amhelp.IndexesToStates(s.clientStateNames(),
 			req.States), args)
 	}
 
@@ -1021,7 +1037,7 @@ func (s *Server) RemoteAddNS(
 	}
 
 	// execute TODO event trace
-	_ = s.Source.Add(amhelp.IndexesToStates(s.Source.StateNames(), req.States),
+	_ = s.Source.Add(amhelp.IndexesToStates(s.clientStateNames(), req.States),
 		args)
 
 	return nil
@@ -1049,7 +1065,7 @@ func (s *Server) RemoteRemove(
 	}
 
 	// execute TODO event trace
-	val := s.Source.Remove(amhelp.IndexesToStates(s.Source.StateNames(),
+	val := s.Source.Remove(amhelp.IndexesToStates(s.clientStateNames(),
 		req.States), args)
 
 	// return
@@ -1081,7 +1097,7 @@ func (s *Server) RemoteSet(
 	}
 
 	// execute TODO event trace
-	val := s.Source.Set(amhelp.IndexesToStates(s.Source.StateNames(),
+	val := s.Source.Set(amhelp.IndexesToStates(s.clientStateNames(),
 		req.States), args)
 
 	// return
